@@ -378,14 +378,4 @@ def bounds_as_constraint(ctx):
     sites = [(k, ctx.touch(ctx.model.lookup_method(ctx.cls(v), '_Step'))) for k, v in CONCRETE_SOLVERS.items()] + \
             [('base-deco', ctx.func(D.DECORATORS['base'])), ('NM-deco', ctx.func(D.DECORATORS['NM']))]
     for key, m in sites:
-        sn = selfname_of(m)
-        asg = [s for s in stmts_of(m.node) if isinstance(s, ast.Assign) and isinstance(s.targets[0], ast.Name) and s.targets[0].id == 'constraints']
-        ctx.need(asg, 'no `constraints = ...` in %s' % m.qualname)
-        for s in asg:
-            gs = guards_of(s, stop=m.node)
-            strict = [g[1] for g in gs if ''.join(unparse(g[0]).split()) == '%s._useStrictRange' % sn]
-            ctx.need(strict, 'constraints assignment not under a _useStrictRange test in %s' % m.qualname)
-            want = D.constraints_term(sn, strict[0])
-            ctx.stats['terms_compared'] += 1
-            ctx.check(t(s.value) == want, '%s#coupling[strict=%s]' % (m.qualname, strict[0]), 'constraints = %s' % T.show(want),
-                      'constraints are coupled as %s (expected %s)' % (unparse(s.value), T.show(want)), m, s)
+        D.check_coupling(ctx, key, m)
